@@ -470,3 +470,26 @@ Proof.
     assert (negb (mem_bytes cookie_key h1_exclude) && valid_field_name cookie_key = true) as -> by (vm_compute; reflexivity).
     reflexivity.
 Qed.
+
+(* through the canonicalising setters every letter-case spelling of a bookkeeping key IS the
+   bookkeeping key (and so is never transmitted); only SetHeaderNonCanonical can create a
+   differently spelled map key - dropped on HTTP/2 and HTTP/3, the caller's own header on HTTP/1.1 *)
+Lemma mime_key_of_canonical_key k : is_pseudo_name k = false -> canonical_key k = mime_key k.
+Proof. unfold canonical_key. now intros ->. Qed.
+
+Lemma bookkeeping_spelling_via_set_header k :
+  (to_lower k = to_lower header_order_key -> mime_key k = header_order_key) /\
+  (to_lower k = to_lower pseudo_header_order_key -> mime_key k = pseudo_header_order_key).
+Proof.
+  split; intros H.
+  - assert (T : forallb is_tchar header_order_key = true) by (vm_compute; reflexivity).
+    pose proof (canonical_key_case_insensitive header_order_key k T (eq_sym H)) as E.
+    assert (Tk : forallb is_tchar k = true).
+    { rewrite <- forallb_tchar_lower, H, forallb_tchar_lower. exact T. }
+    rewrite (mime_key_of_canonical_key k (tchar_not_pseudo k Tk)) in E. rewrite <- E. vm_compute. reflexivity.
+  - assert (T : forallb is_tchar pseudo_header_order_key = true) by (vm_compute; reflexivity).
+    pose proof (canonical_key_case_insensitive pseudo_header_order_key k T (eq_sym H)) as E.
+    assert (Tk : forallb is_tchar k = true).
+    { rewrite <- forallb_tchar_lower, H, forallb_tchar_lower. exact T. }
+    rewrite (mime_key_of_canonical_key k (tchar_not_pseudo k Tk)) in E. rewrite <- E. vm_compute. reflexivity.
+Qed.
